@@ -255,7 +255,45 @@ func NormalizeFrequencies(freqs []int, alphabet []int, totalFreq, scale int) (in
 		}
 	}
 
-	freqs[idxMax] = max(freqs[idxMax]-delta, 1)
+	if delta == 0 {
+		return alphabetSize, nil
+	}
+
+	if inc > 0 {
+		// Remaining deficit goes to the most frequent symbol
+		freqs[idxMax] += delta
+		return alphabetSize, nil
+	}
+
+	if freqs[idxMax] > delta {
+		freqs[idxMax] -= delta
+		return alphabetSize, nil
+	}
+
+	// Remaining excess is bigger than the most frequent symbol: take it from
+	// every symbol that can spare it (never zero out a frequency)
+	for delta > 0 {
+		adjustments := 0
+
+		for _, idx := range alphabet[0:alphabetSize] {
+			if freqs[idx] <= 1 {
+				continue
+			}
+
+			freqs[idx]--
+			adjustments++
+			delta--
+
+			if delta == 0 {
+				break
+			}
+		}
+
+		if adjustments == 0 {
+			return alphabetSize, fmt.Errorf("Cannot normalize frequencies: alphabet size %d exceeds scale %d", alphabetSize, scale)
+		}
+	}
+
 	return alphabetSize, nil
 }
 
